@@ -571,6 +571,22 @@ def bloom_image(s, b, off):
             and b[off + n + 19] == f32_byte(s._fpr, 3))
 
 
+def hex_byte(h, i):
+    """the byte written by the hex digits 2i and 2i+1 of the hex text h"""
+    return int(h[2 * i:2 * i + 2], 16)
+
+
+def unhex(h):
+    """the bytes a hex text stands for"""
+    return bytes.fromhex(h)
+
+
+def f32_at_be(b, off):
+    """the IEEE binary32 value stored big-endian at b[off:off+4]"""
+    import struct
+    return struct.unpack(">f", bytes(b[off:off + 4]))[0]
+
+
 def u64_at(b, off, v):
     """the 8 bytes b[off:off+8] are the little-endian base-256 digits of v"""
     return (le_bytes(b, off, 8) == v
